@@ -35,6 +35,11 @@ def decl_order_documented(d):
 
 def use_probe(d, name="S"):
     K = d[4]
+    if d[3].startswith("Option<"):
+        # the getter of an Option<enum> field returns Result<enum, raw>; the setters take the enum
+        if K is None:
+            return f"pub fn use_all(s: {name}) -> {name} {{ let mut t = s; if let Ok(v) = s.x() {{ t = s.with_x(v); t.set_x(v); }} t }}"
+        return f"pub fn use_all(s: {name}) -> {name} {{ let mut t = s; if let Ok(v) = s.x(0) {{ t = s.with_x({K - 1}, v); t.set_x(0, v); }} t }}"
     if K is None:
         return f"pub fn use_all(s: {name}) -> {name} {{ let v = s.x(); let mut t = s.with_x(v); t.set_x(v); t }}"
     return f"pub fn use_all(s: {name}) -> {name} {{ let v = s.x(0); let mut t = s.with_x({K - 1}, v); t.set_x(0, v); t }}"
@@ -46,6 +51,40 @@ def decl_valid(d):
         return False
     n = int(base[1:])
     return oracle.field_valid(n, form, ranges, ty, K, stride)
+
+
+# custom field types for C09 (defined once at the crate root by C09_PRELUDE): exhaustive enums CE1..CE3, non-exhaustive enums CQ<w>
+# (used as Option<CQ<w>>), nested bitfields CN<w>
+CUSTOM_Q = (1, 2, 3, 4, 7, 8, 9, 16)
+CUSTOM_N = (1, 2, 3, 4, 7, 8, 9, 12, 16)
+
+
+def c09_prelude():
+    out = []
+    for w in (1, 2, 3):
+        vs = ", ".join(f"V{i} = {i}" for i in range(1 << w))
+        out.append(f"#[bitenum(u{w}, exhaustive = true)] #[derive(Debug, PartialEq, Eq)] pub enum CE{w} {{ {vs} }}")
+    for w in CUSTOM_Q:
+        vs = "V0 = 0" if w == 1 else f"V0 = 0, V1 = 1, VT = {(1 << w) - 1}"
+        out.append(f"#[bitenum(u{w}, exhaustive = false)] #[derive(Debug, PartialEq, Eq)] pub enum CQ{w} {{ {vs} }}")
+    for w in CUSTOM_N:
+        out.append(f"#[bitfield(u{w})] pub struct CN{w} {{ #[bit(0, rw)] b: bool }}")
+    return "\n".join(out) + "\n"
+
+
+def custom_types_around(w):
+    tys = set()
+    for ww in (w - 1, w, w + 1):
+        if ww in (1, 2, 3):
+            tys.add(f"CE{ww}")
+        if ww in CUSTOM_Q and ww != w - 1:
+            tys.add(f"Option<CQ{ww}>")
+        if ww in CUSTOM_N and ww != w + 1:
+            tys.add(f"CN{ww}")
+    if w < 1:
+        # a range that selects no bit at all: every custom width is "wrong by w"
+        tys |= {"Option<CQ8>", "CN8", "CE1", "Option<CQ16>", "CN16"}
+    return sorted(tys)
 
 
 def types_around(w):
@@ -69,6 +108,10 @@ def c09_small_product(n):
             # `bits([lo..=hi])`: a range list with one member is still one contiguous range
             forms = ['bits'] + (['bit'] if lo == hi else []) + (['list1'] if (lo + hi) % 2 == 0 else [])
             for form in forms:
+                for ty in custom_types_around(w):
+                    for K in (None, 2):
+                        for st in ([None] if K is None else [None, max(w, 1)]):
+                            out.append((base, form, [(lo, hi)], ty, K, st, '='))
                 for ty in types_around(w):
                     for K in (None, 1, 2, 3):
                         if K is None:
